@@ -404,6 +404,35 @@ func (h *H) scenarioSameBlock() {
 	h.opEndBlock(1)
 }
 
+// scenario GovDeposit (round 4, fix 45d0bc2): passed proposals whose message deposits FROM the gov module account.  1 carries
+// MsgDeposit{depositor: gov} of 1 on proposal 3 (which is 1 short of its minimum), 2 carries MsgSubmitProposal{proposer: gov}
+// with an initial deposit of 5.  Expected: both messages fail in AddDeposit, 1 and 2 end FAILED, nothing is written, 3 dies at
+// its deposit end and is refunded; module balance = open deposits throughout, every end blocker returns no error.  (Without
+// the guard: 3 is activated by a deposit that moved no coin, records (3, gov, 1) and (4, gov, 5) exist without funds, and the
+// refund at the end of 3 fails: the end blocker returns the error.)
+func (h *H) scenarioGovDeposit() {
+	h.opParams(defaultParams())
+	for i := range h.accs {
+		h.opMint(i, 1_000_000)
+	}
+	h.opSubmit(0, false, 1000, []pmsg{h.msgGovDeposit(3, 1)})     // 1: voting until 60
+	h.opSubmit(1, false, 1000, []pmsg{h.msgGovSubmit(5, false)}) // 2: voting until 60
+	for v := range h.vals {
+		h.opVote(1, 100+v, one("yes"))
+		h.opVote(2, 100+v, one("yes"))
+	}
+	h.opEndBlock(50)
+	h.opSubmit(2, false, 999, []pmsg{h.msgCas(0, 0, 1, true)}) // 3: deposit period until 90, 1 short
+	h.opEndBlock(10)
+	h.opEndBlock(1) // time 60: 1 and 2 pass their tallies, their messages run
+	h.opDeposit(3, 3, 0)
+	h.opEndBlock(30) // time 61
+	h.opEndBlock(10) // time 91: 3 has died (fixed tree) …
+	h.opEndBlock(20) // time 101
+	h.opEndBlock(1)  // time 121: … or its voting period ends here (without the guard)
+	h.opEndBlock(1)
+}
+
 func (h *H) randomTxBlock(sn snap, dt int64) {
 	r := h.rng
 	var items []txItem
